@@ -62,6 +62,7 @@ PROBES = [
     "reuse_depth_ge_5",
     "apply_failed_then_reapplied",
     "reapplied_to_own_result",
+    "document_as_text",
 ]
 FORMS = ["dicts", "text", "file", "builder_str", "builder_ptr", "asdicts", "stringio"]
 ALL_KINDS = ["add", "remove", "replace", "move", "copy", "test", "addne", "addap"]
@@ -116,7 +117,10 @@ def generate(seed: int, config: str, tier: str) -> Dict[str, Any]:
             if r < 0.15:
                 script.append(["build", L, form])
             elif r < 0.65:
-                script.append(["apply", L, form, rng.randrange(len(docs)) if rng.random() < 0.6 else 0])
+                step = ["apply", L, form, rng.randrange(len(docs)) if rng.random() < 0.6 else 0]
+                if rng.random() < 0.2:
+                    step.append(rng.choice(["text", "stringio"]))  # the document as JSON text / a stream
+                script.append(step)
             elif r < 0.72:
                 # apply again to a document the client was handed back earlier (the same object, patched in place)
                 script.append(["reapply", L, form, rng.randrange(8)])
@@ -144,7 +148,11 @@ def _gen_addx(rng: Any, prof: Dict[str, Any], docs: List[Any]) -> List[Any]:
         if isinstance(v, list):
             loc = l + (rng.choice(["-", 0, max(len(v) - 1, 0), len(v), len(v) + 2, len(v) + 1]),)
         else:
-            loc = l + (rng.choice(list(v.keys()) + prof["keys"][:3]),)
+            names = list(v.keys()) + prof["keys"][:3]
+            if v and rng.random() < 0.25:
+                # a new member whose name is '~' or '#' + the name of an existing sibling
+                names = [rng.choice(["~", "#"]) + str(rng.choice(list(v.keys())))]
+            loc = l + (rng.choice(names),)
     elif r < 0.93 and locs:
         # through a scalar: both add and the variant must fail alike
         l, v = rng.choice(locs)
@@ -337,12 +345,19 @@ def execute(spec: Dict[str, Any], ctx: Ctx) -> None:
             ctx.log.add("asdicts", rec.pid)
             check_patches(f"asdicts({rec.pid})", "C15.patch_unchanged")
         elif kind == "apply":
-            _, L, form, D = step
+            _, L, form, D = step[:4]
+            docform = step[4] if len(step) > 4 else "value"
             L %= len(oplists)
             D %= len(docs)
             rec = patches.get((L, form)) or build(L, form)
             target = copy.deepcopy(docs[D])
-            kept: Any = target
+            if docform == "text":
+                target = json.dumps(docs[D])
+                ctx.count("probe.document_as_text")
+            elif docform == "stringio":
+                target = io.StringIO(json.dumps(docs[D]))
+                ctx.count("probe.document_as_text")
+            kept: Any = target if docform == "value" else None
             try:
                 res = rec.obj.apply(target)
                 out: Tuple[str, Any] = ("ok", core.tj(res))
@@ -372,12 +387,13 @@ def execute(spec: Dict[str, Any], ctx: Ctx) -> None:
                 ctx.count("probe.reuse_depth_ge_5")
             if kept is not None and not isinstance(kept, (dict, list)) and out[0] == "ok":
                 ctx.count("probe.root_replaced")
-            results.append({"v": kept, "snap": core.tj(kept), "client": c})
-            own[c].append(len(results) - 1)
+            if kept is not None or out[0] == "ok":
+                results.append({"v": kept, "snap": core.tj(kept), "client": c})
+                own[c].append(len(results) - 1)
             stepname = f"apply #{rec.applied} of patch {rec.pid} to document {D}"
             check_patches(stepname, "C15.patch_unchanged")
             check_caller(stepname)
-            check_results(stepname, len(results) - 1)
+            check_results(stepname, len(results) - 1 if (kept is not None or out[0] == "ok") else None)
         elif kind == "reapply":
             _, L, form, k = step
             L %= len(oplists)
